@@ -184,6 +184,8 @@ func c05Shapes() []c05shape {
 				gen.S{"s": "x", "n": 2.0}, gen.S{"o": gen.S{"b": 4.0}}, gen.S{"o": gen.S{"c": gen.S{"d": true}}, "s": "y"},
 				gen.S{"arr": gen.Arr(1.0, 2.0, 3.0)}, gen.S{"arr": gen.Arr(7.0), "n": 1.0}, gen.S{"objs": gen.Arr(gen.S{"k": "a"}, gen.S{"k": "b"})},
 				gen.S{"s": "z", "o": gen.S{"b": 1.0, "c": gen.S{"d": false}}, "arr": gen.Arr(0.0, 5.0)},
+				gen.S{"arr": gen.Arr(0.0, 1.0, 2.0, 3.0, 4.0, 5.0, 6.0, 7.0, 8.0, 9.0, 10.0, 11.0, 12.0)}, // indexes beyond one digit
+				gen.S{"objs": gen.Arr(gen.S{"k": "a"}, gen.S{"k": "b"}, gen.S{"k": "c"}, gen.S{"k": "d"}, gen.S{"k": "e"}, gen.S{"k": "f"}, gen.S{"k": "g"}, gen.S{"k": "h"}, gen.S{"k": "i"}, gen.S{"k": "j"}, gen.S{"k": "k"}, gen.S{"k": "l"})},
 			},
 			Bad: []any{gen.S{"n": "NaNish"}, gen.S{"o": gen.S{"b": "bee"}}, gen.S{"arr": gen.Arr("one")}}},
 	}
